@@ -16,8 +16,6 @@ package boltz
 //@   ensures result != nil && dbSame()
 //@ func (Store).getLinks
 //@   pure
-//@ func (EntitySymbol).GetLinkedType
-//@   pure
 //@ func (EntitySymbol).GetPath
 //@   pure
 //@ func (RuntimeEntitySetSymbol).OpenCursor
@@ -52,7 +50,14 @@ package boltz
 //@   invariant 1: dbSame()
 // the GetOrCreate family only ever creates buckets (assumed: these are not verified here)
 //@ func (*TypedBucket).GetOrCreatePath
+//@   props C04
+//@   nosafety
+//@   assume bucket.ErrorHolderImpl != nil && (bucket.Err == nil ==> bucket.Bucket != nil)
 //@   modifies bktHas, bktVal, bktSub
+//@   ensures[a-bucket-or-an-error] result != nil && result.ErrorHolderImpl != nil && (result.Err == nil ==> result.Bucket != nil)
+//@   ensures[pending-error-or-empty-path-is-the-bucket-itself] bucket.Err != nil || len(path) == 0 ==> result == bucket && dbSame()
+//@   ensures[values-untouched] bktVal == old(bktVal)
+//@   invariant 1: next != nil && next.ErrorHolderImpl != nil && next.Err == nil && next.Bucket != nil && bktVal == old(bktVal)
 //@ func GetOrCreatePath
 //@   modifies bktHas, bktVal, bktSub
 //@ func ErrBucket
@@ -111,8 +116,6 @@ package boltz
 //@   invariant 6: ciFix == fix && (!fix ==> dbSame())
 
 // ---- fk index / fk constraint ----
-//@ func (*fkIndex).getIndexBucket
-//@   modifies *
 //@ func (*fkIndex).getIndexBucketReadOnly
 //@   props C09
 //@   nosafety
